@@ -281,6 +281,7 @@ func (ab *Abci) line(act map[string]any, ok bool, errs string, evs sdk.Events) S
 		st.Extra.Note = "projection error: " + err.Error()
 	}
 	st.St = s
+	st.Extra.ModInv = e.ModuleInvariants(e.Ctx)
 	return st
 }
 
